@@ -51,13 +51,15 @@ SKIPPED = [
     "matching_index entries for pairs of nodes that both have no neighbour (0/0, undocumented)",
     "average_neighbors_degree on graphs with an isolated node (raises ValueError from a shape "
     "mismatch k[k != 0]; undocumented) and max_neighbors_degree entries of isolated nodes",
-    "closeness (unweighted and weighted) on graphs that are not (strongly) connected "
-    "(docstring TODO: behaviour for unconnected networks undescribed)",
     "local_vulnerability when the global efficiency is 0 or N < 3 (0/0)",
-    "arenas_betweenness / newman_betweenness on disconnected graphs (per-component treatment and "
-    "size-1 components are not documented; [Newman2005]/[Arenas2003] define connected graphs only)",
-    "eigenvector_centrality / nsi_eigenvector_centrality / pagerank on disconnected graphs (property "
-    "restricts spectral centralities to connected graphs); eigenvector centralities also skipped "
+    "nsi_newman_betweenness and nsi_arenas_betweenness(stopping_mode='twinness'): no definition-level oracle "
+    "(source smearing / stopping probabilities not pinned by a docstring); only the component-wise relation is "
+    "asserted on disconnected graphs, nothing on connected ones",
+    "closeness() without link attribute on graphs that are not connected (igraph convention, docstring TODO); the "
+    "weighted branch follows its code comment (unreachable -> N) and is asserted",
+    "pagerank on graphs with dangling nodes that are not connected (dangling-node convention undocumented)",
+    "eigenvector_centrality / nsi_eigenvector_centrality on disconnected graphs (largest eigenvalue degenerate; "
+    "property restricts spectral centralities to connected graphs); eigenvector centralities also skipped "
     "when the spectral gap lambda_1 - lambda_2 < 1e-2 (ARPACK accuracy ~ tol/gap)",
     "msf_synchronizability of an edgeless graph (0/0)",
     "weighted_local_clustering entries of nodes without links (0/0) and non-symmetric weights "
@@ -69,7 +71,7 @@ SKIPPED = [
     "(observed: corrected n.s.i. motif clustering with unit weights and typical_weight=1 does NOT "
     "reduce to the plain motif clustering, e.g. gives inf/NaN on a triangle with a pendant node)",
     "nsi_transitivity ('not yet implemented' in its docstring), nsi_local_soffer_clustering, "
-    "nsi_arenas_betweenness, nsi_newman_betweenness, nsi_spreading/spreading (EXPERIMENTAL), "
+    "nsi_spreading/spreading (EXPERIMENTAL), "
     "nsi_degree histograms, degree distributions (outside the anchor list; docstrings self-"
     "contradictory), distance_based_measures (EXPERIMENTAL)",
     "pagerank: compared up to scale only (docstring says 'maximum of 1', example sums to 1); damping "
@@ -236,6 +238,13 @@ def check_common(c, net, A, directed, D):
             return x / x.sum()
         c.cmp("pagerank/stationary", pr, S.pagerank(A), tol="linalg",
               nontrivial=len(set(np.round(S.pagerank(A), 9))) > 1)
+    elif all(S.outdegree(A)):
+        # not (strongly) connected but no dangling node: the PageRank chain is still irreducible
+        def pr2():
+            x = np.asarray(net.pagerank(), dtype=float)
+            return x / x.sum()
+        c.cmp("pagerank/stationary-disconnected", pr2, S.pagerank(A), tol="linalg",
+              nontrivial=len(set(np.round(S.pagerank(A), 9))) > 1)
     # ---- n.s.i. with unit node weights: path based (directed distances as in path_lengths)
     c.cmp("nsi_average_path_length/unit-weights", net.nsi_average_path_length,
           S.nsi_unit_average_path_length(D), nontrivial=far)
@@ -340,6 +349,16 @@ def check_undirected(c, net, A, D, exhaustive_subsets):
                   tol=(TOL["arpack"][0], atol), nontrivial=nt)
     c.cmp("msf_synchronizability/laplacian-spectrum", net.msf_synchronizability, S.msf_synchronizability(A),
           tol="linalg")
+    # n.s.i. Arenas-type betweenness at unit node weights, as described in its docstring (closed-neighbourhood walk)
+    if connected:
+        big_enough = any(len(S.closed_neighbours(A, i)) < n for i in range(n))
+        c.cmp("nsi_arenas_betweenness/unit-weights-closed-walk", net.nsi_arenas_betweenness,
+              S.nsi_unit_arenas_betweenness(A), tol="linalg", nontrivial=big_enough)
+        c.cmp("nsi_arenas_betweenness/unit-weights-closed-walk-all-ends",
+              lambda: net.nsi_arenas_betweenness(exclude_neighbors=False),
+              S.nsi_unit_arenas_betweenness(A, False), tol="linalg", nontrivial=big_enough)
+    else:
+        check_random_walk_per_component(c, net, A)
     # ---- n.s.i., unit node weights
     c.cmp("nsi_degree/unit-weights", net.nsi_degree, [x + 1 for x in k])
     c.cmp("nsi_degree/unit-weights-corrected", lambda: net.nsi_degree(typical_weight=1.0), k)
@@ -375,6 +394,46 @@ def check_undirected(c, net, A, D, exhaustive_subsets):
     c.holds("nsi_twinness/unit-weights-documented-range", tw, nontrivial=any(k))
 
 
+def check_random_walk_per_component(c, net, A):
+    """Disconnected undirected graphs.  Convention (code comments of the four methods): the measure "has to be
+    calculated for each component separately"; "if the component has size 1, set random walk betweenness to
+    zero".  So the value of a node is the definition evaluated on its connected component taken as a network
+    of its own (normalisations use the component size)."""
+    n = len(A)
+    comps = S.components(A)
+    nt = any(len(cp) >= 3 for cp in comps)
+    c.cmp("newman_betweenness/per-component", net.newman_betweenness,
+          S.per_component(A, S.newman_betweenness), tol="linalg", nontrivial=nt)
+    c.cmp("arenas_betweenness/per-component", net.arenas_betweenness,
+          S.per_component(A, S.arenas_betweenness), tol="linalg", nontrivial=nt)
+    c.cmp("nsi_arenas_betweenness/per-component", net.nsi_arenas_betweenness,
+          S.per_component(A, S.nsi_unit_arenas_betweenness), tol="linalg", nontrivial=nt)
+    c.cmp("nsi_arenas_betweenness/per-component-all-ends",
+          lambda: net.nsi_arenas_betweenness(exclude_neighbors=False),
+          S.per_component(A, lambda B: S.nsi_unit_arenas_betweenness(B, False)), tol="linalg", nontrivial=nt)
+
+    # nsi_newman_betweenness and the "twinness" stopping mode have no definition-level oracle (their source
+    # smearing / stopping probabilities are not pinned by a docstring); what IS stated is the component-wise
+    # evaluation, so the value on the whole graph must equal the value the same method gives for the
+    # component alone (a relation between two library calls, not an oracle), and 0 on size-1 components.
+    def alone(method, **kw):
+        def fn(B):
+            sub = make_net(B, False)
+            return getattr(sub, method)(**kw)
+        return S.per_component(A, fn)
+    for name, method, kw in (
+            ("nsi_newman_betweenness/per-component-consistency", "nsi_newman_betweenness", {}),
+            ("nsi_newman_betweenness/per-component-consistency-local-ends", "nsi_newman_betweenness",
+             {"add_local_ends": True}),
+            ("nsi_arenas_betweenness/per-component-consistency-twinness", "nsi_arenas_betweenness",
+             {"stopping_mode": "twinness"})):
+        try:
+            exp = alone(method, **kw)
+        except Exception as e:      # the connected reference itself fails: nothing to compare with
+            continue
+        c.cmp(name, lambda: getattr(net, method)(**kw), exp, tol="linalg", nontrivial=nt)
+
+
 def check_weighted(c, net, A, W, directed):
     """Link-weighted variants; W[i][j] > 0 on links (symmetric for undirected graphs)."""
     n = len(A)
@@ -394,6 +453,12 @@ def check_weighted(c, net, A, W, directed):
     c.cmp("global_efficiency/link-weighted", lambda: net.global_efficiency("w"), S.global_efficiency(D))
     c.cmp("local_vulnerability/link-weighted", lambda: net.local_vulnerability("w"), S.local_vulnerability(A, W))
     cl = S.closeness(D)
+    if cl is None:
+        # code comment in closeness(): "Set infinite entries corresponding to unconnected pairs to number of
+        # vertices" -- the weighted branch's convention for unreachable nodes
+        Dn = [[n if x == INF else x for x in row] for row in D]
+        c.cmp("closeness/link-weighted-unconnected-N", lambda: net.closeness("w"),
+              [(n - 1) / sum(row) for row in Dn], nontrivial=True)
     if cl is not None:
         c.cmp("closeness/link-weighted", lambda: net.closeness("w"), cl, nontrivial=nt)
         if S.is_connected(hops):
@@ -575,6 +640,21 @@ def undirected_families(tier):
     F.append(("K1+star5+K1", disjoint_union(empty(1), star(5), empty(1))))
     F.append(("K5+K5", disjoint_union(clique(5), clique(5))))
     F.append(("wheel6+cycle5+path3", disjoint_union(wheel(6), cycle(5), path(3))))
+    paw = from_edges(4, [(0, 1), (1, 2), (0, 2), (2, 3)])
+    F.append(("P3+paw", disjoint_union(path(3), paw)))
+    # unions with scattered labels: components are not contiguous index ranges, isolated nodes in between
+    prng = np.random.RandomState(20240603)
+    for name, U in [("K1+P3+paw", disjoint_union(empty(1), path(3), paw)),
+                    ("K1+P3", disjoint_union(empty(1), path(3))),
+                    ("2K1+wheel6+cycle5+path3", disjoint_union(empty(2), wheel(6), cycle(5), path(3))),
+                    ("K1+K4+P2", disjoint_union(empty(1), clique(4), path(2))),
+                    ("star5+C4+K1", disjoint_union(star(5), cycle(4), empty(1))),
+                    ("petersen+grid3x3+K1", disjoint_union(petersen(), grid(3, 3), empty(1))),
+                    ("windmill3+barbell4_2", disjoint_union(windmill(3), barbell(4, 2)))]:
+        F.append((name, U))
+        for r in range(2):
+            perm = prng.permutation(len(U))
+            F.append(("perm%d(%s)" % (r, name), U[np.ix_(perm, perm)]))
     for n in (2, 3, 6):
         F.append(("empty%d" % n, empty(n)))
     F.append(("petersen", petersen()))
